@@ -92,7 +92,8 @@ func VerifC12_ValueKeySplit() {
 	var pidBytes []byte
 	if verif_Choose("peerIDKind", 0, 1) == 0 {
 		// identity-hashed key: code 0x00, length L, L digest bytes
-		l := verif_Choose("identityLen", 1, 4)
+		// (1..4 bytes, and the real sizes: 36 = ed25519, 37 = secp256k1 public keys)
+		l := []int{1, 2, 3, 4, 36, 37}[verif_Choose("identityLen", 0, 5)]
 		pidBytes = append([]byte{0x00, byte(l)}, verif_Bytes("digest", l)...)
 	} else {
 		// sha2-256: code 0x12, length 32
@@ -100,7 +101,8 @@ func VerifC12_ValueKeySplit() {
 	}
 	pid, err := peer.IDFromBytes(pidBytes)
 	verif_Assume(err == nil)
-	cl := verif_Choose("ctxLen", 0, 3)
+	// context IDs of 0..3 bytes and up to the 64-byte maximum
+	cl := []int{0, 1, 2, 3, 32, 59, 60, 61, 63, 64}[verif_Choose("ctxLen", 0, 9)]
 	ctx := verif_Bytes("ctx", cl)
 	vk := CreateValueKey(pid, ctx)
 	verif_Assert(len(vk) == len(pidBytes)+cl, "value key is peer ID bytes followed by context ID")
